@@ -5,6 +5,9 @@ git -C /repo worktree add -q --detach $WT HEAD || exit 2
 NP=$(head -1 $D/demo.cpp | sed -n 's,^// MPI: *\([0-9][0-9]*\).*,\1,p')
 if [ -n "$NP" ]; then CMD="mpicxx -std=c++17 -O1 -I. demo.cpp -o demo"; RUN="mpirun --allow-run-as-root --oversubscribe -np $NP ./demo";
 elif grep -q "^// mpicxx" $D/demo.cpp; then CMD="mpicxx -std=c++17 -O1 -I. demo.cpp -o demo"; RUN="mpirun --allow-run-as-root --oversubscribe -np 3 ./demo"; else OMPF=""; head -1 $D/demo.cpp | grep -q fopenmp && OMPF="-fopenmp"; CMD="g++ -std=c++17 -O1 $OMPF -I. demo.cpp -o demo"; RUN="./demo"; fi
+HEADCMD=$(head -1 $D/demo.cpp | sed -n 's,^// *\(\(g++\|mpicxx\) .*\)$,\1,p')
+HEADCMD=$(echo "$HEADCMD" | sed 's#[^ ]*demo\.cpp#demo.cpp#; s#-o  *[^ ]*#-o demo#')
+if [ -n "$HEADCMD" ] && [ -z "$NP" ]; then CMD="$HEADCMD"; case "$HEADCMD" in mpicxx*) RUN="mpirun --allow-run-as-root --oversubscribe -np 3 ./demo";; *) RUN="./demo";; esac; fi
 build() { (cd $WT && cp $D/demo.cpp . && eval "$CMD" 2>&1 | tail -3); }
 build; (cd $WT && timeout 900 $RUN > /tmp/sv_clean_$$.txt 2>&1); RC1=$?
 if ! git -C $WT apply $D/patch.diff 2>/tmp/sv_apply_$$.txt; then echo "PATCH-DOES-NOT-APPLY: $(cat /tmp/sv_apply_$$.txt | head -2)"; git -C /repo worktree remove --force $WT; exit 3; fi
